@@ -73,6 +73,9 @@ class MPContext(BaseMPContext, StandardBaseContext):
         ctx.init_builtins()
 
         ctx.hyp_summators = {}
+        # context used for precomputations that need arbitrary precision
+        # (fp and iv are pointed at the global mp in mpmath/__init__.py)
+        ctx._mp = ctx
 
         ctx._init_aliases()
 
@@ -300,6 +303,11 @@ class MPContext(BaseMPContext, StandardBaseContext):
         """
         a = ctx.__class__()
         a.prec = ctx.prec
+        # companion contexts of the global mp (see mpmath/__init__.py)
+        if hasattr(ctx, '_fp'):
+            a._fp = ctx._fp
+        if hasattr(ctx, '_iv'):
+            a._iv = ctx._iv
         return a
 
     # Several helper methods
